@@ -7,6 +7,7 @@ CONSTANTS
   B0s <- B0Q
   Modes <- ModesAll
   MaxSweeps = 3
+  MinExtra = 1
   Ranks = "max"
   Mutant = "none"
   Emit = FALSE
